@@ -29,6 +29,11 @@ def run(ctx):
             for mask in (None, kl):
                 c = t.gen_case(rng, version=v, profile="none", keylen=kl, mask=mask, algorithm=rng.choice("TAH"))
                 cases.append(c)
+    # 2 + key length a whole number of cipher blocks (6 / 14 / 22 / 30 / 46 bytes), unmasked: the pad is then a whole block
+    for v in "ABCD":
+        for kl in (6, 14, 22, 30, 46, 62):
+            for alg, mask in (("H", None), ("T", kl), ("A", 0), ("R", kl - 1)):
+                cases.append(t.gen_case(rng, version=v, profile=rng.choice(["none", "few"]), keylen=kl, mask=mask, algorithm=alg))
     # KBPKs at the msb corner of CMAC subkey generation (KBPK itself and derived KBAK; L and K1)
     for v, kbpk, label in t.cmac_boundary_kbpks(rng):
         c = t.gen_case(rng, version=v, profile=rng.choice(["none", "few"]))
@@ -38,10 +43,17 @@ def run(ctx):
     evals = 0
     fwd = []
     # ---- direction 1: psec -> reference
+    usable = []
     for c in cases:
-        h = t.impl_header(c)
         inp = {"version": c["version"], "kbpk": c["kbpk"].hex(), "hdr16": c["hdr16"], "blocks": [[b[0], len(b[1])] for b in c["blocks"]],
                "key": c["key"].hex(), "mask": c["mask"]}
+        try:
+            h = t.impl_header(c)
+        except Exception as e:  # noqa: BLE001
+            viol.append({"what": "psec refuses a valid header (alphanumeric fields and ids, printable ASCII block data)",
+                         "input": dict(inp, blocks=[[b[0], b[1][:120]] for b in c["blocks"]]), "expected": "OK", "observed": repr(e)[:160]})
+            continue
+        usable.append(c)
         try:
             kb = tr31.wrap(c["kbpk"], h, c["key"], c["mask"])
         except Exception as e:  # noqa: BLE001
@@ -73,7 +85,7 @@ def run(ctx):
             samples.append({"direction": "psec->reference and model==impl text", "key_block": kb[:80] + "..."})
     # ---- direction 2: reference (varying every encoding freedom) -> psec and -> model
     rev = []
-    for c in cases:
+    for c in usable:
         v = c["version"]
         bs = t.BS[v]
         h = t.impl_header(c)
